@@ -28,7 +28,9 @@ changes outside the anchored files (helper packages, option plumbing) whose viol
 for the property and to hide the change in one of its likely blind spots (unmodelled result members, list order, Go / JSON types, echoed values, side effects on
 arguments, long histories, operations after refused or degraded ones, permissive and restrictive configurations, second calls); round 9 (`r9`) asked for clean-up commits
 ("remove redundant check", "use the stdlib helper", "drop the defensive copy", "merge duplicate paths") where the removed code was not redundant after all; round 10 (`r10`) asked for
-well-meant additions (caches and fast paths, tolerances and fall-backs, new options and supported values, extra limits, logging) that leave every existing check in place. Two round-9 proposals for C20 were confirmed but not kept, because they
+well-meant additions (caches and fast paths, tolerances and fall-backs, new options and supported values, extra limits, logging) that leave every existing check in place; round 11 (`r11`) asked for
+modernisation / migration commits meant to change nothing (standard-library helpers for hand-written loops, other data types, another API of the same family, generics, reordered steps). One round-11 proposal for C18 was not kept (an Ed25519 JWK whose `x` is not 32 octets long: the unchanged tree pads or truncates it, the change refuses the document; the statement says nothing about
+malformed key material, and refusing is the better answer). Two round-9 proposals for C20 were confirmed but not kept, because they
 manifest only when two concurrent calls share an input object (one version list handed to several `verprovider.New` calls, documents sharing
 the backing array of a relationship list) and the statement speaks of concurrent calls on distinct inputs; a trial version of the
 check that shared such inputs also showed that the unchanged tree is not race-free then (a third-party BLS library normalises the
@@ -82,6 +84,16 @@ What the misses had in common, and the general lesson applied across checks:
   transformation that fails half-way then an ordinary one, a buffer hashed, edited in place and hashed again, twin creates that
   differ in one optional member, 40 M same-length documents against anything keyed by a short digest, and a volume case that
   overflows any bounded memory while several goroutines use it;
+* *the new construct differs from the old one in a corner* (round 11: modernisations): `Decoder.Decode` / `More` vs `Unmarshal`
+  (trailing data), `binary.Uvarint` vs a strict varint reader, `unicode.IsControl` vs `< 0x20`, `%q` vs JSON quoting,
+  `slices.DeleteFunc` on the caller's list, `url.URL` values as map keys, a set where a list was counted, `TrimLeft` with a
+  cutset, `time.Duration` arithmetic, `min`/`max` clamps, a digest picked by label instead of by curve. The generators now carry
+  the corners themselves: signed payloads with data before / behind the object, every control character and DEL / C1 in hashed
+  text, non-minimal varint headers, value lists with entries of another JSON type, URIs with every component, purposes with
+  repeats beyond five, suffixes decorated with letters of the namespace, deltas of 2^34 s and more, also-known-as lists with a
+  repeated URI, member names that are merely unusual, scheme-less endpoints, short coordinates with a line break in their
+  text, curve names in another letter case against a genuine signature, stray members of other operation types in signed
+  data, signers under another algorithm label;
 * *a hang ended as "inconclusive"* (C20 recursive read lock): lock-ups of the registries are detected inside the case with the
   goroutine dump as witness, and a C20 case timeout is a violation.
 
